@@ -2,6 +2,8 @@
 // global type tables, up to and past the capacity of each range, with allocation
 // failures in table growth.  Each run starts from a reset registry.
 #include "worlds/common.hpp"
+#include "values.h"
+#include "layout.h"
 extern "C" void verif_registry_reset(void);
 
 using namespace sim;
@@ -27,7 +29,7 @@ struct RegistryWorld : World {
 		       "\"(type_traits.c is compiled into the harness unit unchanged so that its static tables can be reset between runs)\"],"
 		       "\"stub\":[\"allocator (ledger + n-th allocation fails)\",\"map id -> (kind, name, size, traits identity) and name -> id reference model\",\"table of C type sizes for the built-in ids\"]}";
 	}
-	std::string process_finding;
+	std::string process_finding; const char *process_sig = "cxx-basic-id";
 	RegistryWorld() {
 		for (int i = 0; i < 64; ++i) g_traits_pool[i] = new type_traits(8 + (size_t) i, (i & 1) ? t_fini : 0, (i & 2) ? t_init : 0);
 		// once per process (the C++ layer keeps the answer in a function-local static, so no run can ask twice): the C++ "basic" metatype
@@ -40,6 +42,18 @@ struct RegistryWorld : World {
 			if (b == taken || b->type == taken->type) snprintf(msg, sizeof msg, "the C++ basic metatype shares id %x with the interface that already owned the name 'basic'", (unsigned) b->type);
 			else if (b->type < 0x100 || b->type > 0x7ff) snprintf(msg, sizeof msg, "the C++ basic metatype got id %x outside the metatype range", (unsigned) b->type);
 			else if (mpt_metatype_traits(b->type) != b) snprintf(msg, sizeof msg, "id %x of the C++ basic metatype does not resolve to its own entry", (unsigned) b->type);
+		}
+		// the same way, once per process: lazily registered types of the plot library keep resolving (asked twice), and the C++ id of a type is
+		// the id its C registration function hands out
+		if (!msg[0]) {
+			const named_traits *r1 = mpt_rawdata_type_traits(), *r2 = mpt_rawdata_type_traits();
+			if (r1 && r2 != r1) process_sig = "lazy-registration-lost";
+			if (r1 && r2 != r1) snprintf(msg, sizeof msg, "the interface 'mpt.rawdata' got id %x on first use and %s when asked again", (unsigned) r1->type, r2 ? "another entry" : "no entry at all");
+		}
+		if (!msg[0]) {
+			int ca = mpt_axis_pointer_typeid(), ct = mpt_text_pointer_typeid(), xa = type_properties<axis *>::id(true), xt = type_properties<text *>::id(true);
+			if (ca > 0 && ct > 0 && (xa != ca || xt != ct)) process_sig = "cxx-id-mismatch";
+			if (ca > 0 && ct > 0 && (xa != ca || xt != ct)) snprintf(msg, sizeof msg, "the C++ ids of axis* and text* are %x and %x, their C registrations handed out %x and %x", (unsigned) xa, (unsigned) xt, (unsigned) ca, (unsigned) ct);
 		}
 		process_finding = msg;
 		verif_registry_reset();
@@ -123,7 +137,7 @@ struct RegistryWorld : World {
 	}
 	void exec(const Plan &p, Log &log, Stats &st) override {
 		int early_if = 0;
-		if (!process_finding.empty()) fail("cxx-basic-id", "%s", process_finding.c_str());
+		if (!process_finding.empty()) fail(process_sig, "%s", process_finding.c_str());
 		{ Sut s; verif_registry_reset(); }
 		ledger_reset();
 		g.total_allocs = 0;
@@ -145,6 +159,19 @@ struct RegistryWorld : World {
 		}
 		{ Sut s; mpt_type_traits('c'); mpt_type_traits(0x41); mpt_type_traits(TypeValue); mpt_interface_traits(0x80); }
 		const named_traits *early = 0;
+		static bool cxx_accessor_used = false;      // (the C++ layer keeps a successful answer in a function-local static, which the harness' registry reset
+		                                             // would leave dangling: one use per process, silent in the event log so that runs hash the same wherever they execute)
+		if (p.get("initfault") && initwhat == 0 && (p.seed & 1) && !cxx_accessor_used) {
+			cxx_accessor_used = true;
+			// the C++ accessor is the first user of the metatype table in this run (and, when this is the first such run of the process, ever):
+			// under an allocation failure it may answer "none", it may not crash - now or at any later call
+			const type_traits *t1, *t2; uint64_t fired;
+			{ Sut s((uint64_t) p.get("initfault")); t1 = type_properties<metatype *>::traits(); fired = g.fired; }
+			{ Sut s; t2 = type_properties<metatype *>::traits(); }
+			(void) t1; (void) fired;
+			if (!t2 || t2->size != sizeof(void *)) fail("builtin-lost", "the C++ traits of metatype pointers do not resolve (%s) after an allocation failure during the first use", t2 ? "wrong size" : "null");
+			st.hit("probe:cxx_metatype_traits_first_use");
+		}
 		if (p.get("initfault")) {
 			uint64_t fired; { Sut s((uint64_t) p.get("initfault")); early = mpt_type_metatype_add(0); fired = g.fired; }
 			if (fired) st.hit("fault:allocfail_in_table_setup");
